@@ -303,18 +303,35 @@ func (s *Solver) solveOne(d *Decls, o *Obligation) *Result {
 			name, a, out string
 			t            float64
 		}
+		// every solver runs; once one has a definite answer the others get a grace period (ten seconds or five times
+		// the winner's time, whichever is longer) to agree or disagree, then they are stopped and not counted
+		ctx, cancel := context.WithCancel(context.Background())
+		defer cancel()
 		ch := make(chan res, len(solvers))
 		for _, sp := range solvers {
 			sp := sp
 			go func() {
-				a, out, t := s.runOne(sp, file, s.timeout, wantModel)
+				a, out, t := s.runOneCtx(ctx, sp, file, s.timeout, wantModel)
 				ch <- res{sp.name, a, out, t}
 			}()
 		}
 		r.Answer = "unknown"
+		graceStarted := false
 		for range solvers {
 			x := <-ch
+			if x.a == "cancelled" {
+				r.Answers[x.name] = "stopped after the grace period"
+				continue
+			}
 			r.Answers[x.name] = x.a
+			if definite(x.a) && !graceStarted {
+				graceStarted = true
+				grace := 10.0
+				if 5*x.t > grace {
+					grace = 5 * x.t
+				}
+				time.AfterFunc(time.Duration(grace*float64(time.Second)), cancel)
+			}
 			if definite(x.a) {
 				if definite(r.Answer) && r.Answer != x.a {
 					r.Status = "fault"
